@@ -11,7 +11,7 @@ TRUSTED = ["Coq 8.16.1 kernel (coqc)", "extraction + ocaml/driver.ml", "harness/
            "modelled not verified: zlib/gzip streaming, the codec's code-point arithmetic (only the grouping of bytes is modelled), Python's csv module (re-implemented as an automaton for one dialect and compared), "
            "int()/float() parsing of numerals, the re module; ARFF headers, dialect detection and the mixed-quote fallback parser are covered by the table oracle only (partial, see DESIGN)"]
 ASSUMPTIONS = ["a line handed to DiskSink contains no CR or LF (it is a line)", "HTTP bodies are valid UTF-8 and complete compressed streams", "LibSVM tokens contain no space, colon or comma; labels are non-empty",
-               "sparse ARFF nominal levels may come back with the documented extra leading '0' level"]
+               "sparse ARFF nominal levels may come back with the documented extra leading '0' level (and as the sorted set of levels when the file declares a level '0' itself)"]
 RULE = ("texts over an alphabet of ASCII, 2/3/4-byte characters and every line boundary, cut into chunks of 1-8 bytes/chars and random sizes, identity/gzip/deflate; line lists with blanks, tabs, unicode, empty lines, batch None/1-4; "
         "tables of 0-6 rows x 1-5 columns with numeric, string, date and nominal attributes whose names/values draw on , ' \" \\ space % ? { } and non-ASCII; variant spellings: keyword case, blank lines, comments, tab delimiter, "
         "double-quote style, spaces after commas; non-trivial = at least two lines / rows")
@@ -324,7 +324,7 @@ def check_arff(ctx, n):
                     v = g.get(name)
                     if kind == "nominal" and v is not None:
                         lv = list(getattr(v, "levels", []))
-                        if lv != levels and not (sparse and lv[:1] == ["0"] and (lv[1:] == levels or sorted(set(["0"] + levels)) == lv)): g["<levels:%s>" % name] = lv
+                        if lv != levels and not (sparse and ((lv[:1] == ["0"] and lv[1:] == levels) or sorted(set(["0"] + levels)) == lv)): g["<levels:%s>" % name] = lv      # sparse: the extra '0' level leads; when '0' is declared too the set of levels comes back sorted
                         g[name] = str(v)
                 got.append(g)
         except Exception as e:
